@@ -1,13 +1,21 @@
+"""Resolves a merge conflict in known_findings.json: union of both sides' "findings" and "fixed"; with a property id as
+argument, that property's findings are taken from the merged branch only (a follow-up may have repaired a former finding)."""
 import json, subprocess, sys
 def load(stage):
     return json.loads(subprocess.check_output(["git", "-C", "/verif", "show", f":{stage}:known_findings.json"]))
 ours, theirs = load(2), load(3)
-out = {"findings": list(ours.get("findings", [])), "fixed": list(ours.get("fixed", []))}
+prop = sys.argv[1] if len(sys.argv) > 1 else None
+out = {"findings": [f for f in ours.get("findings", []) if f["property"] != prop], "fixed": list(ours.get("fixed", []))}
 for f in theirs.get("findings", []):
     if not any(g["property"] == f["property"] and g["signature"] == f["signature"] for g in out["findings"]):
         out["findings"].append(f)
 for f in theirs.get("fixed", []):
     if f not in out["fixed"]:
         out["fixed"].append(f)
+# former findings that were repaired since: never re-added by a branch that still carries an older copy of the file
+from pathlib import Path as _P
+_t = _P(__file__).with_name("removed_findings.json")
+gone = {tuple(x) for x in json.loads(_t.read_text())} if _t.exists() else set()
+out["findings"] = [f for f in out["findings"] if (f["property"], f["signature"]) not in gone]
 open("/verif/known_findings.json", "w").write(json.dumps(out, indent=1) + "\n")
 print(len(out["findings"]), "findings", len(out["fixed"]), "fixed")
